@@ -137,6 +137,8 @@ class Machine:
         self.sim = ctx.activate(ctx.Sim(case['seed'],
                                         bufsize=case.get('bufsize', 8192)))
         self.kind = case['kind']
+        self.small_cache = case.get('cache_size', 400) < 50
+        self.stop = False
         self.db = dbh.make_db(self.sim, self.kind,
                               cache_size=case.get('cache_size', 400))
         self.st = self.db.storage
@@ -356,9 +358,19 @@ class Machine:
                         get_token(o)
                         get_kids(o)
                     except Exception as e:      # noqa: B902
-                        self.flag('new-object-lost-state', '%s: object %d '
-                                  'was disowned but lost its state (%s)'
+                        # known finding: with a small object cache the
+                        # clean-up at a savepoint evicts a new object it
+                        # has just saved; a commit that fails after the
+                        # savepoint data were handed to the storage can no
+                        # longer reload it
+                        fam = '/evicted-by-savepoint-before-failed-commit' \
+                            if self.small_cache and \
+                            where.startswith('after failed commit') else ''
+                        self.flag('new-object-lost-state' + fam, '%s: '
+                                  'object %d was disowned but lost its '
+                                  'state (%s)'
                                   % (where, so.h, type(e).__name__))
+                        self.stop = True    # (the object is unusable)
                 continue
             try:
                 tokv = get_token(o)
@@ -605,7 +617,10 @@ class Machine:
             if o._p_oid is None or o._p_jar is not A.conn:
                 self.flag('savepoint-does-not-own', 'object %d saved by a '
                           'savepoint has no oid/jar' % h)
-        self.check_values('after savepoint')
+        if self.case.get('look_after_sp', True):
+            # (looking re-activates what the savepoint's cache clean-up
+            # evicted; some small-cache runs do not look)
+            self.check_values('after savepoint')
         self.trace.append('sp')
 
     def op_rollback(self, j):
@@ -733,7 +748,7 @@ def run_program(case, savepoints=False):
                 m.op_savepoint()
             elif k == 'rb':
                 m.op_rollback(op[1])
-            if len(m.viol) >= 8:
+            if len(m.viol) >= 8 or m.stop:
                 break
     except Exception as e:      # noqa: B902
         import traceback
